@@ -200,7 +200,7 @@ PROPS = {
         'assumptions': _lease_assumptions + ['absence of panics in the real code is observed on every scenario (harness recover + child process exit), not proved'],
     },
     'C20': {
-        'families': ['events', 'stress', 'buffer', 'hist'], 'fields': {'events': None, 'stress': None, 'buffer': ['obs', 'panic'], 'hist': None},
+        'families': ['events', 'stress', 'buffer', 'hist', 'lease'], 'fields': {'events': None, 'stress': None, 'buffer': ['obs', 'panic'], 'hist': None, 'lease': None},
         'nontrivial': r'(script=[^ ]*E\d+g)|(^stress )|(^buffer .*E\d+,.*R)|(^hist .*tr=.*ev:batch)',
         'rule': 'events family: seeded random scenarios on the REAL listener registry of both generations: 1-5 initial listeners, scripts of concurrent emit / RemoveListener / AddListener '
                 'goroutines, listeners that block inside an emit until a gate opens (so removals and additions overlap emits in progress), real time; every call, return and listener entry is logged in one global order, '
@@ -209,6 +209,7 @@ PROPS = {
                 'buffer family (see C15): a public Enqueue that stays blocked although a place is free, or for ever at shutdown, is a deadlock of a public method; '
                 'hist family (see C03): deterministic virtual-time histories of concurrent Enqueue / Pause / Flush / Start / Stop / cancel calls, also made from listeners and callbacks: a panic of the process, '
                 'a goroutine blocked for ever or a call that never returns is a C20 violation with the scenario as the failing input; '
+                'lease family (see C04): a crash or a stall of a SharedResource scenario (public methods called while leases are requested, granted, expire and the resource is reconfigured) is a C20 violation too; '
                 'non-trivial = an emit with a blocked listener, a stress round, or a history that raised a batch',
         'explanation': 'PARTIAL: listener-registry theorems (exactly once, nothing after RemoveListener returned, no write during an emit, progress) proved over M-Eventer; lock discipline of every shared field proved over the regenerated access table (ExpectLocks); panic / deadlock freedom of the whole API is explored with the race detector and watchdogs, not proved',
         'assumptions': ['Go memory model, sync.RWMutex and the race detector are trusted', 'lockset discipline => no data race is the classical argument (trusted); the extractor reads Lock()/defer Unlock() lexically; a function literal is assumed to run on another goroutine with no locks held', 'synchronous re-entry from inside a listener is excluded by the property and not modelled',
